@@ -252,8 +252,9 @@ def run(rep, tier, seed, replay=None):
             continue
         b = next(mi)
         sa = strip(a)
+        sg = " ".join(t_ for t_ in sa.split() if not t_.startswith("hend="))
         viol = None
-        if e[0] == "gen" and sa != e[1]:
+        if e[0] == "gen" and sg != e[1]:
             viol = "parse of a valid message differs from the message that was generated (fragmentation %s, read sizes %s): got `%s`" % (t[2][:60], t[3], sa[:300])
         if e[0] == "writer":
             got = dict(x.split("=", 1) for x in sa.split()[1:]) if sa.startswith("rc=0") else {}
